@@ -447,7 +447,10 @@ class Body:
         return neg, cur
 
     def switches(self):
-        return [i for i in range(self.n) if self.blocks[i]["t"]["k"] == "switch" and not self.blocks[i].get("cu")]
+        """switch blocks that are reachable from the entry block (literal-condition edges pruned) and are not cleanup"""
+        if getattr(self, "_live", None) is None:
+            self._live = self.reach((0,))
+        return [i for i in range(self.n) if self.blocks[i]["t"]["k"] == "switch" and not self.blocks[i].get("cu") and i in self._live]
 
     # ---------------------------------------------------------------- guards
     def bool_guards(self, pred):
